@@ -550,6 +550,8 @@ func (o *operation) handle() {
 		switch err := o.readRequestMessage(nil, o.request.Body, &reqMsg); {
 		case errors.Is(err, io.EOF):
 			// okay for the first message: means empty message data
+			// (the body may have ended before the message got a buffer)
+			reqMsg.reset(o.bufferPool, true, false)
 			reqMsg.markReady()
 		case err != nil:
 			o.reportError(err)
